@@ -262,6 +262,7 @@ ADDENDA = {
 
 # fourth round
 ADDENDA2 = {
+    "C05": " Added: D8.wavelet (value / derivative pairing of the wavelet rule: piecewise closed forms for order 1, chain rule over the uninterpreted table interpolation for order 3 with a table of justified shortcuts, interpolate<1> == d/dx interpolate<0>).",
     "C10": " Added: D8.kinds (as C04-D13), D9.extent (in-place corrections of output buffers run over the extent the sizing overload gives the buffer).",
     "C02": " Added: D8.independent (linear scale and conformal correction of integrate()/getQuadratureWeights() never depend on each other, shared with C10-D6), D9.workset (the set behind getGlobalPolynomialSpace is the set the weights are computed for, shared with C03-D4).",
     "C01": " D4.tree also covers dropping the needed points of a grid without loaded points (F86). Added: D10.restart (dependence analysis of the GMRES restart loop: every cycle starts from the residual of the current iterate, the iterate changes only through the Krylov reconstruction, F88).",
